@@ -131,6 +131,9 @@ func c08Build(cfg map[string]interface{}, rng *rand.Rand) (p4 string, grid [][2]
 		switch str(cfg["datum"]) {
 		case "none":
 			s += " +ellps=" + c08Ellps[rng.Intn(len(c08Ellps))]
+			if rng.Intn(5) == 0 { // the sphere of the ellipsoid's surface area in place of the ellipsoid
+				s += " +R_A"
+			}
 		case "wgs84":
 			if rng.Intn(2) == 0 {
 				s += " +datum=WGS84"
